@@ -373,6 +373,27 @@ def run_payload_case(case: dict) -> None:
                 data = data[min(3, n):]
             elif kind == "stringio":
                 p = pl.StringIOPayload(io.StringIO(text))
+            elif kind in ("file_text_latin1", "file_text_crlf"):
+                # a text-mode file whose bytes on disk are not the bytes that go out: another encoding than the payload's
+                # (utf-8), or line ends that the text layer translates
+                import tempfile
+
+                tf = tempfile.NamedTemporaryFile(prefix="c04_", delete=False)
+                tmpfiles.append(tf.name)
+                if kind == "file_text_latin1":
+                    ltext = ("é" * (n // 2 + 1) + "x" * n)[:n]
+                    tf.write(ltext.encode("latin-1"))
+                    tf.close()
+                    f2 = open(tf.name, "r", encoding="latin-1")
+                else:
+                    ltext = ("line\r\n" * (n // 6 + 1))[:n]
+                    tf.write(ltext.encode("utf-8"))
+                    tf.close()
+                    f2 = open(tf.name, "r", encoding="utf-8")  # universal newlines: "\r\n" is read as "\n"
+                    ltext = ltext.replace("\r\n", "\n").replace("\r", "\n")
+                opened.append(f2)
+                p = pl.get_payload(f2)
+                expect = ltext.encode("utf-8")
             elif kind in ("file_rb", "file_rb_offset", "file_text", "file_text_offset"):
                 # real files (what `data=open(...)` gives the client): binary and text mode, optionally read a bit before
                 import tempfile
@@ -467,7 +488,7 @@ def run_payload_case(case: dict) -> None:
 @st.composite
 def payload_cases(draw):
     kind = draw(st.sampled_from(["bytes", "str", "bytesio", "bytesio_offset", "stringio", "json", "multipart", "multipart", "formdata", "formdata",
-                                 "file_rb", "file_rb_offset", "file_text", "file_text_offset"]))
+                                 "file_rb", "file_rb_offset", "file_text", "file_text_offset", "file_text_latin1", "file_text_crlf"]))
     case = {"kind": kind, "size": draw(st.sampled_from([0, 1, 10, 2048, 70000])), "sends": draw(st.sampled_from([1, 2, 3]))}
     if kind == "multipart":
         case["nested"] = draw(st.booleans())
